@@ -79,6 +79,18 @@ def vNonNeg (ver : Nat) : VP Nat := if ver < 5 then rdU32 else rdU64
 
 def allZero (b : Bytes) : Bool := b.all (fun x => x == 0)
 
+/-- what the validator remembers besides fatal errors.  `pad`: every padding byte was null (else the exit
+    status is NC_ENULLPAD).  `tag` is a GHOST of the model, not computed by the C: every empty list was
+    written as ABSENT (tag ZERO; the C accepts any of the three list tags there, finding C20-F5). -/
+structure VFlags where
+  pad : Bool
+  tag : Bool
+  deriving DecidableEq, Repr, Inhabited
+
+def VFlags.ok : VFlags := ⟨true, true⟩
+def VFlags.ofPad (p : Bool) : VFlags := ⟨p, true⟩
+def VFlags.and (a b : VFlags) : VFlags := ⟨a.pad && b.pad, a.tag && b.tag⟩
+
 /-- val_get_NC_tag: only 0, 10, 11, 12 are tags -/
 def vTag : VP Nat := do
   let tag ← rdU32
@@ -95,32 +107,32 @@ def vName (ver : Nat) : VP (Bytes × Bool) := do
   else pure (s, true)
 
 /-- val_get_NC_dim; `haveUnlim` is `ncap->unlimited_id != -1` -/
-def vDim (ver : Nat) (haveUnlim : Bool) : VP (Dim × Bool) := do
+def vDim (ver : Nat) (haveUnlim : Bool) : VP (Dim × VFlags) := do
   let (name, ok) ← vName ver
   let dimLength ← vNonNeg ver
   if haveUnlim ∧ dimLength = 0 then VP.fail .eunlimit
-  else pure ({ name := name, size := dimLength }, ok)
+  else pure ({ name := name, size := dimLength }, VFlags.ofPad ok)
 
 /-- the for-loop of val_get_NC_dimarray -/
-def vDims (ver : Nat) : Nat → Bool → VP (List Dim × Bool)
-  | 0, _ => pure ([], true)
+def vDims (ver : Nat) : Nat → Bool → VP (List Dim × VFlags)
+  | 0, _ => pure ([], VFlags.ok)
   | n + 1, haveUnlim => do
     let (d, ok) ← vDim ver haveUnlim
     let (ds, oks) ← vDims ver n (haveUnlim || d.size == 0)
-    pure (d :: ds, ok && oks)
+    pure (d :: ds, ok.and oks)
 
 /-- the common text of val_get_NC_dimarray / _attrarray / _vararray: tag, nelems, limit, any (valid)
     tag accepted when nelems = 0, else the right tag demanded and the items read -/
-def vArray {α : Type} (ver : Nat) (tagWant maxN : Nat) (errMax : VErr) (items : Nat → VP (List α × Bool)) :
-    VP (List α × Bool) := do
+def vArray {α : Type} (ver : Nat) (tagWant maxN : Nat) (errMax : VErr) (items : Nat → VP (List α × VFlags)) :
+    VP (List α × VFlags) := do
   let tag ← vTag
   let n ← vNonNeg ver
   if n > maxN then VP.fail errMax
-  else if n = 0 then pure ([], true)
+  else if n = 0 then pure ([], ⟨true, tag == 0⟩)
   else if tag ≠ tagWant then VP.fail .enotnc
   else items n
 
-def vDimArray (ver : Nat) : VP (List Dim × Bool) :=
+def vDimArray (ver : Nat) : VP (List Dim × VFlags) :=
   vArray ver NC_DIMENSION NC_MAX_DIMS .emaxdims (fun n => vDims ver n false)
 
 /-- val_get_nc_type -/
@@ -134,7 +146,7 @@ def vType (ver : Nat) : VP NcType := do
     | none => VP.fail .ebadtype          -- not reachable: 1 ≤ xtype ≤ 11 here
 
 /-- val_get_NC_attr (new_NC_attr + val_get_NC_attrV) -/
-def vAttr (ver : Nat) : VP (Att × Bool) := do
+def vAttr (ver : Nat) : VP (Att × VFlags) := do
   let (name, ok1) ← vName ver
   let type ← vType ver
   let nelems ← vNonNeg ver
@@ -145,18 +157,18 @@ def vAttr (ver : Nat) : VP (Att × Bool) := do
   let a : Att := { name := name, xtype := type, nelems := nelems, xvalue := value }
   if padding > 0 then do
     let pad ← rdBytes padding
-    pure (a, ok1 && allZero pad)
-  else pure (a, ok1)
+    pure (a, VFlags.ofPad (ok1 && allZero pad))
+  else pure (a, VFlags.ofPad ok1)
 
 /-- `n` items in sequence, null-padding flags and-ed -/
-def vN {α : Type} (item : VP (α × Bool)) : Nat → VP (List α × Bool)
-  | 0 => pure ([], true)
+def vN {α : Type} (item : VP (α × VFlags)) : Nat → VP (List α × VFlags)
+  | 0 => pure ([], VFlags.ok)
   | n + 1 => do
     let (x, ok) ← item
     let (xs, oks) ← vN item n
-    pure (x :: xs, ok && oks)
+    pure (x :: xs, ok.and oks)
 
-def vAttrArray (ver : Nat) : VP (List Att × Bool) :=
+def vAttrArray (ver : Nat) : VP (List Att × VFlags) :=
   vArray ver NC_ATTRIBUTE NC_MAX_ATTRS .emaxatts (fun n => vN (vAttr ver) n)
 
 /-- `(int)` of a dimid field: low 32 bits, two's complement; `none` = negative -/
@@ -166,17 +178,17 @@ def dimidC (v : Nat) : Option Nat :=
 
 /-- one dimid of val_get_NC_var: `if (dimid >= f_ndims) NC_EBADDIM` on the `int` value (a negative
     one passes here and is caught by compute_var_shape); the field is kept as read -/
-def vDimid (ver : Nat) (fNdims : Nat) : VP (Nat × Bool) := do
+def vDimid (ver : Nat) (fNdims : Nat) : VP (Nat × VFlags) := do
   let v ← vNonNeg ver
   match dimidC v with
-  | some d => if d ≥ fNdims then VP.fail .ebaddim else pure (v, true)
-  | none => pure (v, true)
+  | some d => if d ≥ fNdims then VP.fail .ebaddim else pure (v, VFlags.ok)
+  | none => pure (v, VFlags.ok)
 
 /-- the `begin` field -/
 def vBegin (ver : Nat) : VP Nat := if ver = 1 then rdU32 else rdU64
 
 /-- val_get_NC_var -/
-def vVar (ver : Nat) (fNdims : Nat) : VP (Var × Bool) := do
+def vVar (ver : Nat) (fNdims : Nat) : VP (Var × VFlags) := do
   let (name, ok1) ← vName ver
   let ndims ← vNonNeg ver
   if ndims > NC_MAX_VAR_DIMS then VP.fail .emaxdims else do
@@ -185,9 +197,9 @@ def vVar (ver : Nat) (fNdims : Nat) : VP (Var × Bool) := do
   let xtype ← vType ver
   let vsize ← vNonNeg ver
   let begin_ ← vBegin ver
-  pure ({ name := name, dimids := dimids, atts := atts, xtype := xtype, vsize := vsize, begin := begin_ }, ok1 && ok2)
+  pure ({ name := name, dimids := dimids, atts := atts, xtype := xtype, vsize := vsize, begin := begin_ }, (VFlags.ofPad ok1).and ok2)
 
-def vVarArray (ver : Nat) (fNdims : Nat) : VP (List Var × Bool) :=
+def vVarArray (ver : Nat) (fNdims : Nat) : VP (List Var × VFlags) :=
   vArray ver NC_VARIABLE NC_MAX_VARS .emaxvars (fun n => vN (vVar ver fNdims) n)
 
 /-- check_signature (main) and the magic test of val_get_NC -/
@@ -199,13 +211,13 @@ def vMagic (file : Bytes) : Except VErr Fmt :=
   | _ => .error .enotnc
 
 /-- the reading part of val_get_NC after the magic -/
-def vBody (f : Fmt) : VP (Hdr × Bool) := do
+def vBody (f : Fmt) : VP (Hdr × VFlags) := do
   let ver := f.version
   let numrecs ← vNonNeg ver
   let (dims, ok1) ← vDimArray ver
   let (gatts, ok2) ← vAttrArray ver
   let (vars, ok3) ← vVarArray ver dims.length
-  pure ({ fmt := f, numrecs := numrecs, dims := dims, gatts := gatts, vars := vars }, ok1 && ok2 && ok3)
+  pure ({ fmt := f, numrecs := numrecs, dims := dims, gatts := gatts, vars := vars }, (ok1.and ok2).and ok3)
 
 /-- the shape[] loop of var_shape64 on the `int` dimids (`i` = index of the head of `ids`) -/
 def vShapeOf (dims : List Dim) : List Nat → Nat → Except VErr (List Nat)
@@ -287,29 +299,29 @@ def vPostPass (h : Hdr) : Except VErr Info :=
         .ok { xsz := xsz, beginVar := beginVar, beginRec := beginRec, recsize := recsize,
               numRecVars := numRec, shapes := shapes, lens := lens }
 
-/-- val_get_NC: header, derived layout, and "all padding is null" -/
-def vGetNC (file : Bytes) : Except VErr (Hdr × Info × Bool) :=
+/-- val_get_NC: header, derived layout, and the flags -/
+def vGetNC (file : Bytes) : Except VErr (Hdr × Info × VFlags) :=
   match vMagic file with
   | .error e => .error e
   | .ok f =>
     match vBody f (file.drop 4) with
     | .error e => .error e
-    | .ok ((h, padOk), _) =>
+    | .ok ((h, fl), _) =>
       match vPostPass h with
       | .error e => .error e
-      | .ok info => .ok (h, info, padOk)
+      | .ok info => .ok (h, info, fl)
 
 /-- the validator's verdict as a word: "ok", "enullpad", or the fatal error -/
 def validateCode (file : Bytes) : String :=
   match vGetNC file with
   | .error e => e.name
-  | .ok (_, _, padOk) => if padOk then "ok" else "enullpad"
+  | .ok (_, _, fl) => if fl.pad then "ok" else "enullpad"
 
 /-- exit status 0 of ncvalidator.  (The file-size tests of main() only print warnings.) -/
 def validate (file : Bytes) : Bool :=
   match vGetNC file with
   | .error _ => false
-  | .ok (_, _, padOk) => padOk
+  | .ok (_, _, fl) => fl.pad
 
 /-! ## 2. cdfdiff / ncmpidiff -/
 
